@@ -139,6 +139,41 @@ func c17Graph(c *fw.Ctx, seq []int) *fw.Violation {
 	return v
 }
 
+// c17NestedPrograms: print statements whose later arguments run other print statements (in a callee, in a match block,
+// two levels deep), as ONE site over several records: every print writes its own arguments, in evaluation order.
+func c17NestedPrograms() []*progCase {
+	note := &Func{Name: "note", Params: []string{"v"}, Body: Blk(Pr(S("seen"), V("v")), &Return{X: Bin("*", V("v"), N("10"))})}
+	note3 := &Func{Name: "note3", Params: []string{"v"}, Body: Blk(Pr(S("seen"), V("v"), S("x"), S("y")), Pr(), &Return{X: V("v")})}
+	outer := &Func{Name: "outer", Params: []string{"v"}, Body: Blk(Pr(S("outer"), V("v"), CallE(V("note"), V("v")), S("o")), &Return{X: Bin("+", V("v"), N("1"))})}
+	funcs := []*Func{note, note3, outer}
+	d := func() Expr { return V("$") }
+	n := func(x Expr) Expr { return CallE(V("note"), x) }
+	blockMatch := func() Expr {
+		return &MatchExpr{Subj: d(), Cases: []MatchCase{{Pats: []Expr{N("2")}, Block: Blk(Pr(S("in match"), d(), S("m")))}, {Pats: []Expr{V("w")}, Body: n(V("w"))}}}
+	}
+	bodies := [][]Stmt{
+		{Pr(d(), n(d()))},
+		{Pr(n(d()), d())},
+		{Pr(d(), n(d()), d(), n(Bin("+", d(), N("1"))))},
+		{Pr(S("a"), d(), blockMatch(), S("z"))},
+		{Pr(d(), Arr_(n(d())), &ObjLit{Keys: []string{"k"}, Vals: []Expr{n(d())}})},
+		{Pr(d(), CallE(V("outer"), d()), S("end"))},
+		{Pr(S("first"), d()), Pr(d(), S("p"), CallE(V("note3"), d()), S("q"), CallE(V("outer"), d()))},
+		{Pr(d(), Bin("+", n(d()), n(Bin("+", d(), N("1")))), d())},
+		{Pr(d(), Bin("&&", d(), n(d())), Bin("||", d(), n(d())))},
+		{Pr(), Pr(d()), Pr(d(), d()), Pr(d(), d(), d()), Pr(d()), Pr()},
+		{&ForIn{V: "v", Iter: Arr_(N("1"), N("2")), Body: Pr(V("v"), d(), n(V("v")))}},
+		{Pr(d(), CallE(V("printf"), S("<%v>"), d()), S("after printf"))},
+	}
+	var out []*progCase
+	for _, b := range bodies {
+		for _, doc := range []string{`[1,2,3]`, `[2]`, "1 2\n[2,1]"} {
+			out = append(out, &progCase{P: &Program{Funcs: funcs, Rules: []*Rule{{Body: Blk(b...)}}}, Files: []inFile{{"in.json", doc}}})
+		}
+	}
+	return out
+}
+
 func c17GraphLen(c *fw.Ctx) int { return c.Pick(4, 5) }
 
 func init() {
@@ -155,7 +190,7 @@ func init() {
 	const docUnits = 64
 	fw.Register(&fw.Prop{
 		ID: "C17",
-		Rule: "all JSON trees of depth <= 2 with <= 2 children per container over 12 scalars (incl. -0, 1e21, 5e-324, escapes, NUL) printed via print $, print $,$, a body-less rule and a bare print; a structured sweep of doubles; " +
+		Rule: "all JSON trees of depth <= 2 with <= 2 children per container over 12 scalars (incl. -0, 1e21, 5e-324, escapes, NUL) printed via print $, print $,$, a body-less rule and a bare print; trees of depth 1 over 19 further scalars (text-processing traps, strings that end in or consist of line ends and blanks); a structured sweep of doubles; 12 statement lists whose print arguments run other print statements (callee, match block, two levels, printf) as one site over several records; " +
 			"all programs of <= L heap-building statements (cycles and sharing through arrays, objects, mixtures, popfirst-shared storage) printing every variable; oracle: reference renderer (DESIGN.md 3.14) byte for byte with probed key order, plus model-free laws " +
 			"(numbers positional and bit-identical on re-read; plain containers re-read as equal JSON); states = document shape classes and graph classes; non-trivial = distinct statement sequences whose rendering contains a recurrence marker",
 		Plan: func(t fw.Tier) int { return docUnits + 1 + len(graphOps) + 1 },
@@ -181,6 +216,16 @@ func init() {
 					c.Do(func() any { return c17Spec{Form: "doc", Doc: doc} }, func() *fw.Violation { return c17Doc(c, doc) })
 				}
 			case u == docUnits:
+				for i, pc := range c17NestedPrograms() {
+					pc, i := pc, i
+					c.Do(func() any { return c17Spec{Form: "nested", Lo: i, Doc: pc.source()} }, func() *fw.Violation {
+						v, _, skipped := pc.check(c)
+						if !skipped && v == nil {
+							c.State("nested print statements")
+						}
+						return v
+					})
+				}
 				for lo := 0; lo < len(sweep); lo += numChunk {
 					hi := lo + numChunk
 					if hi > len(sweep) {
@@ -211,6 +256,9 @@ func init() {
 				return c17Doc(c, s.Doc)
 			case "nums":
 				return c17Nums(c, sweep[s.Lo:s.Hi])
+			case "nested":
+				v, _, _ := c17NestedPrograms()[s.Lo].check(c)
+				return v
 			}
 			return c17Graph(c, s.Seq)
 		},
